@@ -108,20 +108,7 @@ def run(chk, facts_dir, tier):
             chk.fail("R11.1", TX + "run", "ok-without-quorum", "transaction::run can return Ok without `confirmed_replicas.len() >= rf/2+1` on that path (gates seen: %s)" % seen, rb, s["line"])
     chk.floor("R11.1", len(oks), 2)
     # growth of confirmed_replicas
-    pushes = [(bi, t) for bi, t in rb.calls() if (rb.callee_decl(t) or "").endswith("ArrayVec::<T, CAP>::push")]
-    n_push = 0
-    for bi, t in pushes:
-        p = op_place(t["args"][0])
-        recv = ev.operand(t["args"][0], (bi, "T"))
-        if "Option<kameo::actor::RemoteActorRef" not in rb.local_ty(p["l"]) and "RemoteActorRef" not in show(recv) and "RemoteActorRef" not in rb.local_ty(p["l"]):
-            continue
-        n_push += 1
-        hits = variant_edge_dominates(rb, ev, bi, lambda term: True, "std::result::Result<sierradb::writer_thread_pool::AppendResult", "0")
-        if hits:
-            chk.ok("R11.1", "a replica is counted only on the Ok arm of its reply", rb.where(t["line"]))
-        else:
-            chk.fail("R11.1", TX + "run", "count-on-error", "a replica is added to confirmed_replicas outside the Ok arm of its reply: failed or missing replicas count towards the quorum", rb, t["line"])
-    chk.floor("R11.1-push", n_push, 1)
+    count_only_acks(chk, prog, rb, ev, "R11.1")
     # initial value: ArrayVec::from_iter([None])
     init_ok = False
     for bi, t in rb.calls():
@@ -177,3 +164,22 @@ def run(chk, facts_dir, tier):
             chk.fail("R11.4", RETRY, "ok-without-write", "set_confirmations_with_retry can return Ok although no attempt to write the confirmation count succeeded "
                      "(e.g. after the retries are exhausted): the write is acknowledged with a confirmation count below quorum on disk", sb, s["line"])
     return {}
+
+
+def count_only_acks(chk, prog, rb, ev, rule):
+    """every push to confirmed_replicas in transaction::run happens on the Ok arm of that replica's reply (shared with C10 R10.5)"""
+    pushes = [(bi, t) for bi, t in rb.calls() if (rb.callee_decl(t) or "").endswith("ArrayVec::<T, CAP>::push")]
+    n_push = 0
+    for bi, t in pushes:
+        p = op_place(t["args"][0])
+        recv = ev.operand(t["args"][0], (bi, "T"))
+        if "Option<kameo::actor::RemoteActorRef" not in rb.local_ty(p["l"]) and "RemoteActorRef" not in show(recv) and "RemoteActorRef" not in rb.local_ty(p["l"]):
+            continue
+        n_push += 1
+        hits = variant_edge_dominates(rb, ev, bi, lambda term: True, "std::result::Result<sierradb::writer_thread_pool::AppendResult", "0")
+        if hits:
+            chk.ok(rule, "a replica is counted only on the Ok arm of its reply", rb.where(t["line"]))
+        else:
+            chk.fail(rule, TX + "run", "count-on-error", "a replica is added to confirmed_replicas outside the Ok arm of its reply: failed, stale or missing replicas count towards the quorum "
+                     "(a StaleWrite reply only says the replica holds *something* at that sequence - possibly another coordinator's transaction)", rb, t["line"])
+    chk.floor(rule + "-push", n_push, 1)
